@@ -7,7 +7,6 @@ import (
 	"github.com/bmeg/grip/gdbi"
 	"github.com/bmeg/grip/gripql"
 	"github.com/bmeg/grip/util/setcmp"
-	"github.com/bmeg/jsonpath"
 )
 
 func TabularOptimizer(pipe []*gripql.GraphStatement) []*gripql.GraphStatement {
@@ -103,21 +102,18 @@ func (t *tabularEdgeHasLabelProc) Process(ctx context.Context, man gdbi.Manager,
 					if setcmp.ContainsString(t.labels, edge.config.Label) {
 						for row := range t.graph.client.GetRows(ctx, edge.config.Data.Source, edge.config.Data.Collection) {
 							data := row.Data.AsMap()
-							if rowSrc, err := jsonpath.JsonPathLookup(data, edge.config.Data.FromField); err == nil {
-								if rowSrcStr, ok := rowSrc.(string); ok {
-									if rowDst, err := jsonpath.JsonPathLookup(data, edge.config.Data.ToField); err == nil {
-										if rowDstStr, ok := rowDst.(string); ok {
-											o := gdbi.Edge{
-												ID:     edge.GenID(rowSrcStr, rowDstStr), //edge.prefix + row.Id,
-												To:     edge.config.To + rowDstStr,
-												From:   edge.config.From + rowSrcStr,
-												Label:  edge.config.Label,
-												Data:   row.Data.AsMap(),
-												Loaded: true,
-											}
-											out <- i.AddCurrent(&o)
-										}
+							// the same reading of the link fields as GetEdgeList: plain field names, non-empty endpoints
+							if rowSrcStr, err := getFieldString(data, edge.config.Data.FromField); err == nil && rowSrcStr != "" {
+								if rowDstStr, err := getFieldString(data, edge.config.Data.ToField); err == nil && rowDstStr != "" {
+									o := gdbi.Edge{
+										ID:     edge.GenID(rowSrcStr, rowDstStr), //edge.prefix + row.Id,
+										To:     edge.config.To + rowDstStr,
+										From:   edge.config.From + rowSrcStr,
+										Label:  edge.config.Label,
+										Data:   row.Data.AsMap(),
+										Loaded: true,
 									}
+									out <- i.AddCurrent(&o)
 								}
 							}
 						}
